@@ -424,6 +424,10 @@ def draw_value(d, T):
         while not ir.tag_stack(it)[0]:
             it = it['alts'][0]['t'] if it['k'] == 'CHOICE' else ir.mk('INTEGER')
         iv = draw_value(sd, it)
+        if d.pct(d.cfg.get('any_long_pct', 5)):
+            it = ir.mk('OCTETSTRING', tags=it.get('tags', []) if it['k'] not in ('CHOICE', 'ANY') else [])
+            n = d.pick([127, 128, 199, 200, 201, 255, 256, 300, 1000])
+            iv = (d.bytes(8) * (n // 8 + 1))[:n]
         if d.pct(d.cfg['any_indef_pct']):
             return x690.cer(it, iv)
         return x690.der(it, iv)
@@ -507,3 +511,40 @@ class HypChooser(object):
         if n < 2 or not self._pct(self.w['permute']):
             return None
         return self.draw(st.permutations(list(range(n))))
+
+
+FORMS = ['DER', 'DER', 'CER', 'BER-indef', 'BER-indef-chunk2', 'BER-chunk3', 'BER-drawn', 'BER-drawn']
+
+
+def encode_form(draw, T, v, form):
+    if form == 'DER':
+        return x690.der(T, v)
+    if form == 'CER':
+        return x690.cer(T, v)
+    if form == 'BER-indef':
+        return x690.ber(T, v, x690.Fixed(indef=True))
+    if form == 'BER-indef-chunk2':
+        return x690.ber(T, v, x690.Fixed(indef=True, chunk=2))
+    if form == 'BER-chunk3':
+        return x690.ber(T, v, x690.Fixed(indef=False, chunk=3))
+    return x690.ber(T, v, HypChooser(draw, weights={'empty_seg': 2}))
+
+
+@st.composite
+def encoded_values(draw, cfg=None, nmin=1, nmax=1, forms=None):
+    """One type, n values of it, each in a reference encoding of a drawn form.
+    -> {'T', 'vals', 'encs', 'forms'}"""
+    c = dict(DEFAULT_CFG)
+    if cfg:
+        c.update(cfg)
+    d = D(draw, c)
+    T = draw_type(d)
+    n = d.int(nmin, nmax)
+    vals, encs, fs = [], [], []
+    for _ in range(n):
+        v = draw_value(d, T)
+        f = d.pick(forms or FORMS)
+        vals.append(v)
+        encs.append(encode_form(draw, T, v, f))
+        fs.append(f)
+    return {'T': T, 'vals': vals, 'encs': encs, 'forms': fs}
